@@ -1,6 +1,6 @@
 CONSTANTS
-  Programs <- SAugQuickSet
-  CanonOrder <- MCOrder
+  Programs <- Space
+  CanonOrder <- MCOrder2
 INIT Init
 NEXT Next
 VIEW View
